@@ -40,6 +40,10 @@ def impl_verdict(root):
         if 'not decomposable' in m:
             return 'reject:decomposable'
         return 'reject:other:' + m
+    except Exception as ex:
+        # `check_spn` raises TypeError (not ValueError) for a sum whose weights are None (`Props/C03Opt.lean: OVerdict.typeError`);
+        # the generators of this module never build one, so any other exception is a disagreement with a concrete circuit
+        return 'reject:raises:' + type(ex).__name__
 
 
 def spec_verdict(root):
@@ -72,7 +76,30 @@ def model_verdict(ctx, root):
     return ':'.join(v.split(':')[:2]), table, order
 
 
-def compare(ctx, root, tag, sample=None):
+class UserSum(Sum):
+    """a user's subclass of a sum node (own EM step, own bookkeeping, ...): still a sum node for every algorithm, and for validation"""
+
+
+class UserProduct(Product):
+    """a user's subclass of a product node"""
+
+
+def subclassed(root):
+    """a copy of the circuit in which every other inner node is an instance of a user subclass of its class"""
+    from copy import deepcopy
+    r = deepcopy(root)
+    for k, n in enumerate(S.bfs_order(r)):
+        if k % 2 == 0 or len(S.bfs_order(r)) < 4:
+            if type(n) is Sum:
+                n.__class__ = UserSum
+            elif type(n) is Product:
+                n.__class__ = UserProduct
+    return r
+
+
+def compare(ctx, root, tag, sample=None, subclass=False):
+    if subclass:
+        root = subclassed(root)
     iv = impl_verdict(root)
     sv = spec_verdict(root)
     ctx.count('verdict:' + sv)
@@ -88,7 +115,7 @@ def compare(ctx, root, tag, sample=None):
         # property false of the implementation on this circuit
         ctx.violation('c03-verdict:' + sv + '->' + iv,
                       f'validation says {iv} but the circuit is {sv} by the property (ids {[n.id for n in S.bfs_order(root)]})',
-                      replay=dict(kind='c03', table=raw_table(root)))
+                      replay=dict(kind='c03', table=raw_table(root), subclass=subclass))
         return False
     if mv is not None and mv != iv:
         ctx.violation('c03-model-disagrees', f'model checkSpn says {mv}, implementation says {iv} (implementation agrees with the property here)',
@@ -492,6 +519,10 @@ def run(ctx):
         for name, bad in corruptions(rs, root):
             ctx.count('corruption:' + name)
             ok = compare(ctx, bad, 'corrupt:' + name)
+            if ok:
+                # the same circuit with inner nodes that are instances of user subclasses of Sum / Product: a sum node is a sum node
+                ctx.count('subclass-instances')
+                ok = compare(ctx, bad, 'corrupt-subclass:' + name, subclass=True)
             if spec_verdict(bad) != 'accept' and ok and (k % 3 == 0 or not quick):
                 check_gates(ctx, bad, name, nv + 8)
             if ctx.n_new(with_input_only=True) >= 3:
@@ -510,6 +541,11 @@ def run(ctx):
         ctx.count('histories')
         if not check_history(ctx, root, nv, rs, 5 if quick else 8):
             return
+    # (v) tables with absent ids / absent weights (Python None): `check_spn` as coded vs the rule proved in Props/C03Opt.lean
+    if ctx.n_new() == 0:
+        from harness.common import run_demo
+        run_demo(ctx, 'demo_c03opt.py', [], 'c03-none-ids-weights', 'check_spn on circuits with id None / weights None vs the rule of checkSpnOpt_accept_iff',
+                 env_extra=dict(VERIF_SEED=str(20260930 + ctx.seed)))
 
 
 def replay(rep):
@@ -561,6 +597,8 @@ def replay(rep):
             return False
         print('gate', r['gate'], 'returned a result')
         return False
+    if r.get('subclass'):
+        root = subclassed(root)
     iv, sv = impl_verdict(root), spec_verdict(root)
     print('implementation:', iv, ' property:', sv)
     return iv == sv
